@@ -238,12 +238,41 @@ def prune_tiny(nodes, budget):
     return out
 
 
+def _invisible(leaf):
+    p = leaf.paint
+    if isinstance(p, Grad):
+        return all(a <= 0.0 for _, _, a in p.stops)
+    return getattr(p, "alpha", 1.0) <= 0.0
+
+
+def prune_invisible(nodes):
+    """Drop leaves painted with full transparency (and groups left empty, or with alpha 0): they do not contribute to the picture,
+    so a converter is free to leave them out (a COLRv0 layer whose palette entry has alpha 0, for instance)."""
+    out = []
+    for n in nodes:
+        if isinstance(n, Group):
+            if n.alpha <= 0.0:
+                continue
+            kids = prune_invisible(n.children)
+            if kids:
+                out.append(Group(n.alpha, kids))
+        elif not _invisible(n):
+            out.append(n)
+    return out
+
+
 def compare_trees(impl, ref, budget, relax_to=None):
     """compare() plus classification of the known extend-domain discrepancy.
 
     Returns (failures, margin). A GRADIENT failure that disappears when the reference tiles its colour line the
     way the *other* format defines it is reported with kind EXTEND-DOMAIN instead (same root cause)."""
     res, margin = compare(impl, ref, budget)
+    if any(k in ("COUNT", "KIND") for k, _, _ in res):
+        # fully transparent layers may be left out by either side
+        a, b = prune_invisible(impl), prune_invisible(ref)
+        res2, margin2 = compare(a, b, budget)
+        if len(res2) < len(res) and not any(k in ("COUNT", "KIND") for k, _, _ in res2):
+            impl, ref, res, margin = a, b, res2, margin2
     if any(k in ("COUNT", "KIND") for k, _, _ in res):
         # shapes smaller than the outline quantisation may legitimately collapse to nothing: retry without them
         a, b = prune_tiny(impl, budget), prune_tiny(ref, budget)
